@@ -114,6 +114,112 @@ def ob_merge_preserves(width, depth, timeout_ms):
     return {"status": "cti", "stats": stats.as_dict(), "funcs": funcs, "cti": cti, "note": "induction step fails for merge: " + str(cti)[:300]}
 
 
+def ob_add_cellspec(width, depth, timeout_ms):
+    """deep shapes, step 1: with _query_linear summarised by its specification (proved at the same shape by the query-spec
+    obligation: it returns est = the minimum of the key's counters and records the key's columns in `buckets`), the real
+    _add_linear equals the cell-level specification  cell' = max(cell, min(est + v, 2^32-1)) at the key's column,
+    unchanged elsewhere; n_added += the capped increment"""
+    stats = common.Stats()
+    book = KeyBook()
+    est = z3.BitVec("est", 32)
+    qcalls = []
+
+    def q_stub(ex, state, args, sig):
+        cms_, buckets_, w_, d_, umax_, key_ = args
+        kid_ = book.register(key_)
+        cells_ = list(state.heap[buckets_.sid])
+        for r in range(depth):
+            cells_[r] = zx(book.colterm(kid_, r, width), 64)
+        state.heap[buckets_.sid] = tuple(cells_)
+        qcalls.append(kid_)
+        return [(state, Val(types.uint32, est))]
+    ex = Executor(stubs={"fasthash64": book.stub(), "_query_linear": q_stub})
+    st = State()
+    sk = cmh.SymCM(st, "s", 32, width, depth)
+    key, kid = book.new_key("key")
+    v = z3.BitVec("value", 32)
+    pre = dict(st.heap)
+    post = cmh.add_linear(ex, st, sk, key, v)
+    colk = cmh.keycols(book, kid, width, depth)
+    exp = z3.If(z3.UGT(zx(est, 64) + zx(v, 64), M64), z3.BitVecVal(MAX32, 32), est + v)
+    spec = []
+    for r in range(depth):
+        for c in range(width):
+            oldc = pre[sk.cms.sid][r * width + c]
+            spec.append(post.heap[sk.cms.sid][r * width + c] == z3.If(z3.And(colk[r] == c, z3.ULT(oldc, exp)), exp, oldc))
+    # the summarised query returns a lower bound of the key's counters (it returns their minimum: query-spec obligation)
+    lower = [z3.ULE(est, select_col(pre[sk.cms.sid][r * width:(r + 1) * width], colk[r])) for r in range(depth)]
+    funcs = sorted(ex.funcs_encoded)
+    if not (len(qcalls) == 1 and qcalls[0] == kid):
+        return {"status": "cti", "stats": stats.as_dict(), "funcs": funcs, "note": "_query_linear is not called exactly once on the key"}
+    goals = [(f"row {r}", z3.And(*spec[r * width:(r + 1) * width])) for r in range(depth)] + [(f"safety {i}", z3.Not(cond)) for i, (kind, cond) in enumerate(cmh.safety_goals(post))]
+    for name, g in goals:
+        # each row of the table is written by its own loop iteration: one query per row
+        r, m = common.z3check(list(post.pc) + book.range_constraints() + lower + [z3.Not(g)], timeout_ms, stats, label=f"_add_linear (query summarised) == cell-level spec, {depth}x{width}, {name}")
+        if r != "unsat":
+            return {"status": "unknown" if r != "sat" else "cti", "stats": stats.as_dict(), "funcs": funcs, "note": f"{r} on {name}: _add_linear differs from its cell-level specification at {depth}x{width}"}
+    return {"status": "proved", "stats": stats.as_dict(), "funcs": funcs}
+
+
+def ob_add_row_lemma(width, same_key, timeout_ms):
+    """deep shapes, step 2 (pure logic, any depth): for ONE row, the cell-level specification preserves LB and UB, given
+    only that est is a lower bound of the added key's counter in this row and (tracked == added) est >= min(f, 2^32-1),
+    which LB gives for every row"""
+    stats = common.Stats()
+    row = [z3.BitVec(f"cell{c}", 32) for c in range(width)]
+    bits = max(1, (width - 1).bit_length())
+    colj = z3.BitVec("colj", bits)
+    colk = colj if same_key else z3.BitVec("colk", bits)
+    est, v_true, f = z3.BitVec("est", 32), z3.BitVec("v_true", 64), z3.BitVec("f", 64)
+    S = [z3.BitVec(f"S{c}", 64) for c in range(width)]
+    v32 = z3.Extract(31, 0, cap(v_true))
+    exp = z3.If(z3.UGT(zx(est, 64) + zx(v32, 64), M64), z3.BitVecVal(MAX32, 32), est + v32)
+    new = [z3.If(z3.And(colj == c, z3.ULT(row[c], exp)), exp, row[c]) for c in range(width)]
+    rng = [z3.ULT(colj, width), z3.ULT(colk, width)] if width < (1 << bits) else []
+    assume = rng + [z3.ULE(v_true, 1 << 40), z3.ULT(f, 1 << 44)] + [z3.ULT(s_, 1 << 44) for s_ in S]
+    assume += [z3.ULE(est, select_col(row, colj)), z3.UGE(zx(select_col(row, colk), 64), cap(f))] + [z3.ULE(zx(row[c], 64), cap(S[c])) for c in range(width)]
+    assume += [z3.UGE(select_col(S, colk), f)]
+    if same_key:
+        assume.append(z3.UGE(zx(est, 64), cap(f)))
+    f2 = f + v_true if same_key else f
+    S2 = [S[c] + z3.If(colj == c, v_true, z3.BitVecVal(0, 64)) for c in range(width)]
+    goal = z3.And(z3.UGE(zx(select_col(new, colk), 64), cap(f2)), *[z3.ULE(zx(new[c], 64), cap(S2[c])) for c in range(width)])
+    r, m = common.z3check(assume + [z3.Not(goal)], timeout_ms, stats, label=f"row lemma: cell-level spec preserves LB/UB, width {width}, tracked {'==' if same_key else '!='} added")
+    if r == "unsat":
+        return {"status": "proved", "stats": stats.as_dict(), "funcs": []}
+    return {"status": "unknown" if r != "sat" else "cti", "stats": stats.as_dict(), "funcs": [], "note": f"{r}: the cell-level specification does not imply the invariant step"}
+
+
+def ob_merge_cellspec(width, depth, timeout_ms):
+    """deep shapes: _merge_linear == min(a+b, 2^32-1) per cell, argument untouched, bookkeeping summed; with the per-cell
+    lemma (pure logic) this preserves LB/UB"""
+    from checks import c09
+    stats = common.Stats()
+    ex = Executor()
+    st = State()
+    a = cmh.SymCM(st, "a", 32, width, depth)
+    b = cmh.SymCM(st, "b", 32, width, depth)
+    pre = dict(st.heap)
+    post = cmh.merge_linear(ex, st, a, b)
+    goal = z3.And(*[r_ == c09.sat_add(x, y) for r_, x, y in zip(post.heap[a.cms.sid], pre[a.cms.sid], pre[b.cms.sid])] + [x == y for x, y in zip(post.heap[b.cms.sid], pre[b.cms.sid])])
+    r, m = common.z3check(list(post.pc) + [z3.Not(goal)], timeout_ms, stats, label=f"_merge_linear == cell-wise saturating sum, {depth}x{width}")
+    # per-cell lemma
+    x, y = z3.BitVec("x", 32), z3.BitVec("y", 32)
+    fa, fb, Sa, Sb = z3.BitVec("fa", 64), z3.BitVec("fb", 64), z3.BitVec("Sa", 64), z3.BitVec("Sb", 64)
+    rr = c09.sat_add(x, y)
+    lem = z3.Implies(z3.And(z3.ULT(fa, 1 << 44), z3.ULT(fb, 1 << 44), z3.ULT(Sa, 1 << 44), z3.ULT(Sb, 1 << 44)),
+                     z3.And(z3.Implies(z3.And(z3.UGE(zx(x, 64), cap(fa)), z3.UGE(zx(y, 64), cap(fb))), z3.UGE(zx(rr, 64), cap(fa + fb))),
+                            z3.Implies(z3.And(z3.ULE(zx(x, 64), cap(Sa)), z3.ULE(zx(y, 64), cap(Sb))), z3.ULE(zx(rr, 64), cap(Sa + Sb)))))
+    r2, _ = common.z3check([z3.Not(lem)], timeout_ms, stats, label="cell lemma: saturating sum preserves LB/UB")
+    funcs = sorted(ex.funcs_encoded)
+    if r == "unsat" and r2 == "unsat":
+        return {"status": "proved", "stats": stats.as_dict(), "funcs": funcs}
+    if r == "sat":
+        cex = {"kind": "linear-merge", "width": width, "depth": depth, "clause": "cell-wise saturating sum", "a": [ev(m, c) for c in pre[a.cms.sid]], "b": [ev(m, c) for c in pre[b.cms.sid]], "nar_a": [0, 0], "nar_b": [0, 0], "col_key": [0] * depth}
+        return {"status": "cex", "stats": stats.as_dict(), "funcs": funcs, "cex": cex, "replay": c09.replay_linear_merge(cex), "finding_key": "linear-merge-cellspec"}
+    return {"status": "unknown", "stats": stats.as_dict(), "funcs": funcs, "note": f"{r},{r2}"}
+
+
 def ob_query_spec(width, depth, timeout_ms):
     """_query_linear returns min_r cms[r][col_r(key)], records the columns in `buckets`, leaves the table alone; and the
     property's bounds follow from LB/UB (pure logic)."""
@@ -230,18 +336,30 @@ def main():
         bmc = [(2, 2, 3)]
         tmo = 900000
     else:
-        shapes = [(w, d) for w in (1, 2, 3, 4) for d in (1, 2, 3, 4)] + [(2, 6), (2, 8), (6, 2)]
+        shapes = [(w, d) for w in (1, 2, 3, 4) for d in (1, 2, 3)] + [(1, 4), (2, 4), (6, 2)]
         bmc = [(2, 2, 4), (3, 2, 3), (1, 1, 5), (2, 1, 5)]
-        tmo = 900000
+        tmo = 1500000
+    deep = [] if tier == "quick" else [(3, 4), (4, 4), (2, 6), (2, 8), (4, 8), (8, 8)]
     for (w, d) in shapes:
         for same in (True, False):
             obs.append(common.Ob(f"induction: add preserves LB/UB, {d}x{w}, tracked {'==' if same else '!='} added", ob_add_preserves, (w, d, same, tmo), hard_s=tmo / 1000 + 120,
                                  bounds={"width": w, "depth": d, "state": "arbitrary table satisfying LB/UB", "v_true": "0..2^40"}))
         obs.append(common.Ob(f"induction: merge preserves LB/UB, {d}x{w}", ob_merge_preserves, (w, d, tmo), hard_s=tmo / 1000 * 6 + 120, bounds={"width": w, "depth": d}))
         obs.append(common.Ob(f"query spec + bounds from invariant, {d}x{w}", ob_query_spec, (w, d, tmo), hard_s=tmo / 1000 * 8 + 120, bounds={"width": w, "depth": d}))
+    for (w, d) in deep:
+        obs.append(common.Ob(f"deep shape {d}x{w}: _add_linear == cell-level spec", ob_add_cellspec, (w, d, tmo), hard_s=tmo / 1000 + 120, bounds={"width": w, "depth": d}))
+        obs.append(common.Ob(f"deep shape {d}x{w}: _merge_linear == cell-wise saturating sum (+ cell lemma)", ob_merge_cellspec, (w, d, tmo), hard_s=tmo / 1000 * 2 + 120, bounds={"width": w, "depth": d}))
+        obs.append(common.Ob(f"deep shape {d}x{w}: query spec + bounds from invariant", ob_query_spec, (w, d, tmo), hard_s=tmo / 1000 * 8 + 120, bounds={"width": w, "depth": d}))
+    for w in sorted(set(w for w, _ in deep)):
+        for same in (True, False):
+            obs.append(common.Ob(f"row lemma (any depth): cell-level spec preserves LB/UB, width {w}, tracked {'==' if same else '!='} added", ob_add_row_lemma, (w, same, tmo), hard_s=tmo / 1000 + 120, bounds={"width": w, "depth": "any"}))
     nsk = 0
     for (w, d, K) in bmc:
         for skel in cmh.skeletons(K):
+            if K >= 4 and w * d >= 4 and not any(o[0] == "merge" for o in skel):
+                continue   # add-only histories of this length are covered by K=3 and by the induction
+            if K >= 3 and w * d >= 6 and not any(o[0] == "merge" for o in skel):
+                continue
             nsk += 1
             obs.append(common.Ob(f"BMC {d}x{w} K={K} {'/'.join(o[0][0] + ''.join(map(str, o[1:])) for o in skel)}", ob_bmc, (w, d, skel, tmo, "boundary"), hard_s=tmo / 1000 + 120,
                                  bounds={"width": w, "depth": d, "K": K, "skeleton": [list(o) for o in skel]}))
@@ -267,7 +385,7 @@ def main():
         return 2
     return common.finish(
         PID, tier, "model_checking", obs, results, t0=t0, funcs=funcs,
-        bounds={"induction_shapes(width,depth)": shapes, "bmc(width,depth,K)": bmc, "bmc_skeletons": nsk, "bmc_keys": 3, "bmc_sketches": 2,
+        bounds={"induction_shapes(width,depth)": shapes, "deep_shapes_by_decomposition(width,depth)": deep, "bmc(width,depth,K)": bmc, "bmc_skeletons": nsk, "bmc_keys": 3, "bmc_sketches": 2,
                 "bmc_multiplicities": "symbolic in {0..3} u {2^32-4..2^32+2} u {2^40}", "induction_multiplicity": "0..2^40 (symbolic)",
                 "ghost_totals": "< 2^44"},
         stubs=["fasthash64 -> uninterpreted; `% width` yields a fresh column < width per (key, row), memoised (same key, same columns in every sketch)",
